@@ -12,7 +12,7 @@
   `CoreVM.runToCompletion`; the steps that are not refined (instance creation + `_start_flow`, new-action / `Start` / conflict
   resolution sites, `StopFlow(flow_id=…)`, head movement in general) are not in the relation.
 -/
-import NemoVerif.Lemmas.LifetimeCoreVM8b
+import NemoVerif.Lemmas.LifetimeCoreVM8c
 namespace NemoVerif.Lifetime.Refine
 open NemoVerif NemoVerif.CoreVM NemoVerif.CoreIndex NemoVerif.Lifetime
 
@@ -52,6 +52,10 @@ inductive RefinedStep : VM → VM → Prop
   | stopEvent (fuel : Nat) (event : Event) (uid : String) (r : Event × List String) (vm vm' : VM) :
       event.ev.name = "StopFlow" → lookupArg "flow_instance_uid" event.ev.args = some (.str uid) →
       processInternalEvent fuel event vm = .ok r vm' → RefinedStep vm vm'
+  | stopIdEvent (fuel : Nat) (event : Event) (fid : String) (r : Event × List String) (vm vm' : VM) :
+      event.ev.name = "StopFlow" → lookupArg "flow_instance_uid" event.ev.args = none →
+      lookupArg "flow_id" event.ev.args = some (.str fid) →
+      processInternalEvent fuel event vm = .ok r vm' → RefinedStep vm vm'
   | finishEvent (fuel : Nat) (event : Event) (uid : String) (r : Event × List String) (vm vm' : VM) :
       event.ev.name = "FinishFlow" → lookupArg "flow_instance_uid" event.ev.args = some (.str uid) →
       LogInvisible fuel uid event.scores →
@@ -72,17 +76,17 @@ theorem okOr_ok (s t : State) (r : Except Err State) (h : r = .ok t) : okOr s r 
 
 /-- every refined CoreVM step IS one operation of the Lifetime machine on the abstraction -/
 theorem refinedStep_is_op (hν : Function.Injective ν) (hφ : Function.Injective φ) (vm vm' : VM) (hw : WF vm)
-    (h : RefinedStep ν φ vm vm') : WF vm' ∧ ∃ ops : List IOp, ops.length ≤ 1 ∧ (∀ op ∈ ops, Covered op) ∧ absVM ν φ vm' = cs (ops.foldl applyOp (absVM ν φ vm)) := by
+    (h : RefinedStep ν φ vm vm') : WF vm' ∧ ∃ ops : List IOp, (∀ op ∈ ops, Covered op) ∧ absVM ν φ vm' = cs (ops.foldl applyOp (absVM ν φ vm)) := by
   cases h with
   | abort n f sc d _ _ hr =>
     obtain ⟨t, ht, ha, w'⟩ := corevm_abort_is_op ν φ hν hφ n vm f sc d vm' hw hr
-    exact ⟨w', [.abort n (ν f) d], Nat.le_refl _, (by intro op hop; simp only [List.mem_singleton] at hop; subst hop; trivial), by simp only [List.foldl, applyOp, okOr_ok _ t _ ht]; exact ha⟩
+    exact ⟨w', [.abort n (ν f) d], (by intro op hop; simp only [List.mem_singleton] at hop; subst hop; trivial), by simp only [List.foldl, applyOp, okOr_ok _ t _ ht]; exact ha⟩
   | finish n f sc d _ _ hlog hr =>
     obtain ⟨t, ht, ha, w'⟩ := corevm_finish_is_op ν φ hν hφ n vm f sc d vm' hlog hw hr
-    exact ⟨w', [.finish n (ν f) d], Nat.le_refl _, (by intro op hop; simp only [List.mem_singleton] at hop; subst hop; trivial), by simp only [List.foldl, applyOp, okOr_ok _ t _ ht]; exact ha⟩
+    exact ⟨w', [.finish n (ν f) d], (by intro op hop; simp only [List.mem_singleton] at hop; subst hop; trivial), by simp only [List.foldl, applyOp, okOr_ok _ t _ ht]; exact ha⟩
   | endScope fuel f h cfg hd name r _ _ hcfg hhd hpos hel hsn hro hr =>
     obtain ⟨_, t, ht, ha, w'⟩ := corevm_slideStep_endScope_is_op ν φ hν hφ fuel f h vm vm' cfg hd name r hcfg hhd hpos hel hw hsn hro hr
-    exact ⟨w', [.endScope fuel (ν f) (ν name)], Nat.le_refl _, (by intro op hop; simp only [List.mem_singleton] at hop; subst hop; trivial), by simp only [List.foldl, applyOp, okOr_ok _ t _ ht]; exact ha⟩
+    exact ⟨w', [.endScope fuel (ν f) (ν name)], (by intro op hop; simp only [List.mem_singleton] at hop; subst hop; trivial), by simp only [List.foldl, applyOp, okOr_ok _ t _ ht]; exact ha⟩
   | label fuel f h cfg hd r _ _ hcfg hhd hpos hel hro hr =>
     rw [slideStep_label fuel f h vm cfg hd _ hcfg hhd hpos hel] at hr
     simp only [bind, EStateM.bind] at hr
@@ -92,7 +96,7 @@ theorem refinedStep_is_op (hν : Function.Injective ν) (hφ : Function.Injectiv
       rw [hv] at hr
       obtain ⟨t, ht, ha, w'⟩ := corevm_label_is_op ν φ hν f h hd.pos vm vm1 hw hro hv
       cases hr
-      exact ⟨w', [.label (ν f)], Nat.le_refl _, (by intro op hop; simp only [List.mem_singleton] at hop; subst hop; trivial), by simp only [List.foldl, applyOp, okOr_ok _ t _ ht]; exact ha⟩
+      exact ⟨w', [.label (ν f)], (by intro op hop; simp only [List.mem_singleton] at hop; subst hop; trivial), by simp only [List.foldl, applyOp, okOr_ok _ t _ ht]; exact ha⟩
   | beginScope fuel f h cfg hd name r _ _ hcfg hhd hpos hel hro hr =>
     rw [slideStep_beginScope fuel f h vm cfg hd name hcfg hhd hpos hel] at hr
     simp only [bind, EStateM.bind] at hr
@@ -104,7 +108,7 @@ theorem refinedStep_is_op (hν : Function.Injective ν) (hφ : Function.Injectiv
       cases hr
       exact ⟨w', [.frame (ν f) (absFlow ν φ vm f x).heads
           (if (OMap.lookup name x.scopes).isNone then (absFlow ν φ vm f x).scopes ++ [(ν name, [], [])] else (absFlow ν φ vm f x).scopes)],
-        Nat.le_refl _, (by intro op hop; simp only [List.mem_singleton] at hop; subst hop; trivial), ha⟩
+        (by intro op hop; simp only [List.mem_singleton] at hop; subst hop; trivial), ha⟩
   | other fuel f h cfg hd r _ _ hcfg hhd hpos hel hro hr =>
     rw [slideStep_other fuel f h vm cfg hd hcfg hhd hpos hel] at hr
     simp only [bind, EStateM.bind] at hr
@@ -114,11 +118,10 @@ theorem refinedStep_is_op (hν : Function.Injective ν) (hφ : Function.Injectiv
       rw [hv] at hr
       obtain ⟨ha, w'⟩ := corevm_other_frame ν φ f h hd.pos vm vm1 hw hro hv
       cases hr
-      exact ⟨w', [], Nat.zero_le _, (by intro op hop; cases hop), by rw [ha]; rfl⟩
+      exact ⟨w', [], (by intro op hop; cases hop), by rw [ha]; rfl⟩
   | status f st i _ _ hfi hok hr =>
     obtain ⟨_, _, _, ha⟩ := setFlowStatus_abs ν φ hν f st vm vm' ⟨i, hfi⟩ hr
-    refine ⟨wf_setFlowStatus hw f st hr, [.status (ν f) (absStatus st)], Nat.le_refl _,
-      (by intro op hop; simp only [List.mem_singleton] at hop; subst hop; trivial), ?_⟩
+    refine ⟨wf_setFlowStatus hw f st hr, [.status (ν f) (absStatus st)], (by intro op hop; simp only [List.mem_singleton] at hop; subst hop; trivial), ?_⟩
     obtain ⟨x, hx⟩ := wfi_lookup vm hw.i f i hfi
     have hfl : (absVM ν φ vm).flows (ν f) = some (absFlow ν φ vm f x) := by rw [absVM_flows ν φ hν, hx]; rfl
     have hstat : (absFlow ν φ vm f x).status = absStatus i.status := by simp only [absFlow, hfi]
@@ -132,8 +135,7 @@ theorem refinedStep_is_op (hν : Function.Injective ν) (hφ : Function.Injectiv
     rw [hrun] at hr
     cases hr
     have hn := update_names ν hν e vm vm' hw.a hw.i hrun
-    refine ⟨⟨wa, ?_, ?_, ?_⟩, [.event (absEv ν e)], Nat.le_refl _,
-      (by intro op hop; simp only [List.mem_singleton] at hop; subst hop; trivial), ?_⟩
+    refine ⟨⟨wa, ?_, ?_, ?_⟩, [.event (absEv ν e)], (by intro op hop; simp only [List.mem_singleton] at hop; subst hop; trivial), ?_⟩
     · unfold WFI; rw [hix, hfx]; exact hw.i
     · intro k a hk
       obtain ⟨y, hy, e'⟩ := hn k a hk
@@ -146,30 +148,36 @@ theorem refinedStep_is_op (hν : Function.Injective ν) (hφ : Function.Injectiv
     refine ⟨w', ?_⟩
     unfold stopEventOp at ht
     cases hfl : (absVM ν φ vm).flows (ν uid) with
-    | none => rw [hfl] at ht; cases ht; exact ⟨[], Nat.zero_le _, (by intro op hop; cases hop), ha⟩
+    | none => rw [hfl] at ht; cases ht; exact ⟨[], (by intro op hop; cases hop), ha⟩
     | some fl =>
       rw [hfl] at ht
       simp only at ht
       split at ht
-      · cases ht; exact ⟨[], Nat.zero_le _, (by intro op hop; cases hop), ha⟩
+      · cases ht; exact ⟨[], (by intro op hop; cases hop), ha⟩
       · simp only [Bool.false_eq_true, if_false] at ht
-        exact ⟨[.abort fuel (ν uid) (decide (fl.activated > 0))], Nat.le_refl _, (by intro op hop; simp only [List.mem_singleton] at hop; subst hop; trivial), by simp only [List.foldl, applyOp, okOr_ok _ t _ ht]; exact ha⟩
+        exact ⟨[.abort fuel (ν uid) (decide (fl.activated > 0))], (by intro op hop; simp only [List.mem_singleton] at hop; subst hop; trivial), by simp only [List.foldl, applyOp, okOr_ok _ t _ ht]; exact ha⟩
+  | stopIdEvent fuel event fid r _ _ hname huid hfid hr =>
+    obtain ⟨w', ops, hops, ha⟩ := corevm_stopflow_id_event_is_ops ν φ hν hφ fuel event vm vm' fid r hname huid hfid hw hr
+    refine ⟨w', ops, ?_, ha⟩
+    intro op hop
+    have := hops op hop
+    cases op <;> first | trivial | exact absurd this (by simp [IsAbort])
   | finishEvent fuel event uid r _ _ hname huid hlog hr =>
     obtain ⟨_, t, ht, ha, w'⟩ := corevm_finishflow_event_is_op ν φ hν hφ fuel event vm vm' uid r hname huid hw hlog hr
     refine ⟨w', ?_⟩
     unfold stopEventOp at ht
     cases hfl : (absVM ν φ vm).flows (ν uid) with
-    | none => rw [hfl] at ht; cases ht; exact ⟨[], Nat.zero_le _, (by intro op hop; cases hop), ha⟩
+    | none => rw [hfl] at ht; cases ht; exact ⟨[], (by intro op hop; cases hop), ha⟩
     | some fl =>
       rw [hfl] at ht
       simp only at ht
       split at ht
-      · cases ht; exact ⟨[], Nat.zero_le _, (by intro op hop; cases hop), ha⟩
+      · cases ht; exact ⟨[], (by intro op hop; cases hop), ha⟩
       · simp only [if_true] at ht
-        exact ⟨[.finish fuel (ν uid) false], Nat.le_refl _, (by intro op hop; simp only [List.mem_singleton] at hop; subst hop; trivial), by simp only [List.foldl, applyOp, okOr_ok _ t _ ht]; exact ha⟩
+        exact ⟨[.finish fuel (ν uid) false], (by intro op hop; simp only [List.mem_singleton] at hop; subst hop; trivial), by simp only [List.foldl, applyOp, okOr_ok _ t _ ht]; exact ha⟩
   | startEvent fuel event flowId src r pm _ _ hname hfid hsrc hknown href hr hne =>
     obtain ⟨t, res, ht, _, ha, w'⟩ := corevm_startflow_nocreate_is_op ν φ hν hφ fuel event vm vm' flowId src r _ hname hfid hsrc hknown hw href hr hne
-    exact ⟨w', [.reactivate (φ flowId) true (actArg event.ev.args) (OMap.lookup flowId vm.r.idStates).isSome (ν src) pm], Nat.le_refl _, (by intro op hop; simp only [List.mem_singleton] at hop; subst hop; trivial),
+    exact ⟨w', [.reactivate (φ flowId) true (actArg event.ev.args) (OMap.lookup flowId vm.r.idStates).isSome (ν src) pm], (by intro op hop; simp only [List.mem_singleton] at hop; subst hop; trivial),
       by simp only [List.foldl, applyOp, ht]; exact ha⟩
 
 
@@ -257,21 +265,19 @@ theorem corevm_hierarchy_invariant_partial (hν : Function.Injective ν) (hφ : 
   | refl => exact ⟨hw, hf, hl⟩
   | tail _ hstep ih =>
     obtain ⟨w1, f1, l1⟩ := ih
-    obtain ⟨w2, ops, hlen, hcov, habs⟩ := refinedStep_is_op ν φ hν hφ _ _ w1 hstep
-    refine ⟨w2, ?_, ?_⟩
-    · rw [habs]
-      apply FlowInv.cs
-      match ops, hlen, hcov with
-      | [], _, _ => exact f1
-      | [op], _, hc => exact flowInv_step_covered _ op f1 (hc op (List.mem_singleton.mpr rfl))
-      | _ :: _ :: _, hl2, _ => simp at hl2
-    · rw [habs]
-      apply LinkInv.cs
-      match ops, hlen with
-      | [], _ => exact l1
-      | [op], _ => exact LinkInv.step _ op l1
-      | _ :: _ :: _, hl2 => simp at hl2
-
+    obtain ⟨w2, ops, hcov, habs⟩ := refinedStep_is_op ν φ hν hφ _ _ w1 hstep
+    have key : ∀ (ops : List IOp) (s : State), (∀ op ∈ ops, Covered op) → FlowInv s → LinkInv s →
+        FlowInv (ops.foldl applyOp s) ∧ LinkInv (ops.foldl applyOp s) := by
+      intro ops
+      induction ops with
+      | nil => intro s _ a b; exact ⟨a, b⟩
+      | cons op ops ih2 =>
+        intro s hc a b
+        exact ih2 _ (fun o ho => hc o (List.mem_cons_of_mem _ ho))
+          (flowInv_step_covered s op a (hc op (List.mem_cons_self ..))) (LinkInv.step s op b)
+    obtain ⟨f2, l2⟩ := key ops _ hcov f1 l1
+    rw [habs]
+    exact ⟨w2, FlowInv.cs f2, LinkInv.cs l2⟩
 
 /-! ### non-vacuity: `vmEx` satisfies the hypotheses, and a refined step leaves it -/
 
